@@ -1,41 +1,49 @@
 ------------------------------ MODULE MCLedger ------------------------------
-(* Model-checking wrapper of Ledger: one block over three accounts (a sender, a contract /   *)
-(* fee recipient, a third party) with tiny amounts: every interleaving of gas purchase,      *)
-(* nested frames with transfers, self-destruct sweeps and burns, reverts, gas return, tip,   *)
-(* end-of-transaction burn, withdrawals and rewards.  TLC checks that ether is conserved in  *)
-(* every reachable state and that the fee postconditions are satisfiable.                    *)
+(* Model-checking wrapper of Ledger: one block, a sender (1), a contract (2) that is also    *)
+(* the fee recipient, and a third party (3), tiny amounts.  Every interleaving of gas        *)
+(* purchase, a frame (optionally a creation) with transfers out of the sender/contract,      *)
+(* self-destruct sweeps and burns by the contract, reverts, gas return, tip, end-of-          *)
+(* transaction burn, a withdrawal and a proof-of-work reward.  TLC checks that ether is      *)
+(* conserved in every reachable state.  The dimensions that do not matter for conservation   *)
+(* are fixed: base fee and proof-of-work follow from the rule set, only the contract can be  *)
+(* created / destroyed, ether flows 1 -> 2 -> 3.                                              *)
 EXTENDS Ledger
 
 CONSTANTS MCForks, MaxAmt, MaxDepth, MaxTxs
 
 VARIABLE ntx        \* transactions started so far
 
-Accts == 1..3
 Init0 == /\ fork \in MCForks
-         /\ bal = <<4, 1, 0>> /\ balu = <<0, 0, 0>>
-         /\ burned = 0 /\ minted = 0 /\ mintedu = 0 /\ total0 = [w |-> 5, u |-> 0]
+         /\ bal = <<3, 1, 0>> /\ balu = <<0, 0, 0>>
+         /\ burned = 0 /\ minted = 0 /\ mintedu = 0 /\ total0 = [w |-> 4, u |-> 0]
          /\ blk = NoBlk /\ tx = NoTx /\ frames = << >> /\ float = 0 /\ escrow = 0 /\ sd = {} /\ created = {}
          /\ ntx = 0
 
+Pow == fork < 10                                   \* before the merge: block reward
+Bf == IF fork >= London THEN 1 ELSE 0
+
 MCNext ==
-  \/ /\ \E bf \in {0, 1}, wd \in {<< >>, << [a |-> 3, amt |-> 1] >>}, pow \in BOOLEAN :
-          StartBlock(fork, bf, 2, wd, IF pow THEN << [a |-> 2, units |-> 2] >> ELSE << >>)
+  \/ /\ \E wd \in {<< >>, << [a |-> 3, amt |-> 1] >>} :
+          StartBlock(fork, Bf, 2, wd, IF Pow THEN << [a |-> 2, units |-> 2] >> ELSE << >>)
      /\ UNCHANGED ntx
   \/ /\ ntx < MaxTxs /\ ntx' = ntx + 1
-     /\ \E gas \in 1..2, feecap \in 0..2, tipcap \in 0..1, bf \in {0, 1} : StartTx(1, gas, feecap, tipcap, bf)
+     /\ \E gas \in 1..2, tipcap \in 0..1, blobfee \in {0, 1} :
+          /\ (blobfee = 1 => fork >= Cancun)
+          /\ StartTx(1, gas, Bf + 1, tipcap, blobfee)
   \/ UNCHANGED ntx /\
-     \/ \E a \in Accts, amt \in 1..MaxAmt : GasBuy(a, amt) \/ GasReturn(a, amt) \/ Tip(a, amt) \/ SdBurn(a, amt)
-     \/ \E a \in Accts, amt \in 1..MaxAmt : (float <= 0 /\ Debit(a, amt)) \/ (float # 0 /\ Credit(a, amt) /\ float' = 0)
-     \/ (InTx /\ Len(frames) < MaxDepth /\ \E c \in BOOLEAN, to \in Accts : EnterFrame(c, to))
-     \/ \E from \in Accts, to \in Accts : Len(frames) < MaxDepth + 1 /\ SelfDestructed(from, to)
+     \/ \E amt \in 1..(2 * MaxAmt + 1) : GasBuy(1, amt) \/ GasReturn(1, amt) \/ Tip(2, amt)
+     \/ \E amt \in 1..MaxAmt : SdBurn(2, amt)
+     \/ \E amt \in 1..MaxAmt : (float = 0 /\ \E a \in {1, 2} : Debit(a, amt))
+     \/ (float > 0 /\ \E a \in {2, 3} : Credit(a, float))
+     \/ (InTx /\ Len(frames) < MaxDepth /\ \E c \in BOOLEAN : EnterFrame(c, 2))
+     \/ (Len(frames) <= MaxDepth /\ \E to \in {2, 3} : SelfDestructed(2, to))
      \/ \E rev \in BOOLEAN : ExitFrame(rev)
      \/ \E used \in 0..2 : EndTx(used)
-     \/ \E a \in Accts, amt \in 1..MaxAmt : Withdrawal(a, amt) \/ Reward(a, amt)
+     \/ Withdrawal(3, 1) \/ Reward(2, 2)
      \/ SkipZeroWithdrawal
      \/ EndBlock
 
 MCSpec == Init0 /\ [][MCNext]_<<lvars, ntx>>
 
-(* a transaction can complete: the fee postconditions are not vacuous *)
-Bounded == burned <= 12
+Bounded == burned <= 8
 =============================================================================
